@@ -38,6 +38,7 @@ pub struct Ctx {
     /// separate budget for the cells added after the varint codecs, so that they are always represented
     coq_budget2: usize,
     coq_used2: usize,
+    op_used: std::collections::HashMap<u32, usize>,
     rng: Rng,
     tmp: String,
     format_drift: bool,
@@ -84,7 +85,11 @@ fn case_json(op: u32, s: usize, ints: &[i128], bytes: &[u8]) -> Value {
 impl Ctx {
     /// Register a case for evaluation by the Coq model, with the implementation's observation.
     fn coq(&mut self, op: u32, s: usize, ints: &[i128], bytes: &[u8], obs: &Option<Vec<i128>>, force: bool) {
-        if !force && self.shards.len() >= self.coq_budget { return; }
+        // a budget per operation, so that every modelled cell is represented among the Coq-evaluated cases
+        let cap = match op { 0..=3 => 230, 4..=7 => 160, 8..=13 => 110, 14 | 15 => 100, 16 | 17 => 50, 18 | 19 => 130, 20..=22 => 50, 30..=32 => 230, _ => 50 } * self.coq_budget / 2400;
+        let used = self.op_used.entry(op).or_insert(0);
+        if !force && *used >= cap { return; }
+        *used += 1;
         let term = format!(
             "({}, {}, {}, {}, {})",
             op, s, coq_z_list(ints.iter().cloned()), coq_bytes(bytes),
@@ -522,6 +527,7 @@ pub fn run(args: &Args) {
         coq_budget: if args.thorough { 24000 } else { 2400 },
         coq_budget2: if args.thorough { 12000 } else { 1400 },
         coq_used2: 0,
+        op_used: Default::default(),
         rng: Rng::new(args.seed),
         tmp: format!("{}/tmp", args.out),
         format_drift: false,
